@@ -40,6 +40,43 @@ def signatures(max_params):
     return sorted(set(out))
 
 
+DUNDER_SIGS = ["a, *, __k", "a, *, __k=0", "a, *__rest", "a, **__opts", "__p, b", "a, __q=0", "*__rest, __k"]
+DUNDER_SHAPES = ["1", "1, 2", "1, __k=2", "1, 2, 3", "1, __opts=2", "1, z=2", "__p=1, b=2", "1, b=2", "1, __q=2", "__k=1", "1, 2, __k=3"]
+
+
+def search_dunder():
+    """parameters whose name starts with two underscores: only a positional-or-keyword one is treated as positional-only (the legacy
+    convention); keyword-only, *args and **kwargs parameters keep their kind"""
+    from replay.checkcode import check_code
+    from replay.util import count
+    lines, plan, env = [], [], {}
+    for si, sig in enumerate(DUNDER_SIGS):
+        src = f"def d{si}({sig}):\n    pass\n"
+        exec(src, env)
+        lines.append(src)
+    lines.append("def use() -> None:\n")
+    base = sum(l.count("\n") for l in lines)
+    for si, sig in enumerate(DUNDER_SIGS):
+        for sh in DUNDER_SHAPES:
+            plan.append((si, sig, sh))
+            lines.append(f"    d{si}({sh})\n")
+    res = check_code("".join(lines))
+    bad = {fl["lineno"]: fl["description"].split("\n")[0] for fl in res if fl["code"].name in ("incompatible_call", "incompatible_argument")}
+    count(evaluations=len(plan), distinct=len(plan))
+    for i, (si, sig, sh) in enumerate(plan):
+        ln = base + 1 + i
+        try:
+            eval(f"d{si}({sh})", env)
+            binds = True
+        except TypeError:
+            binds = False
+        if sig.startswith("__p") or "__q" in sig:
+            continue    # the legacy convention itself (a dunder-named positional-or-keyword parameter read as positional-only) is pyanalyze's documented choice
+        if binds == (ln in bad):
+            return f"def f({sig}) called as f({sh}): CPython {'binds' if binds else 'raises TypeError while binding'}, pyanalyze reports {bad.get(ln, 'nothing')}"
+    return None
+
+
 def call_shapes():
     out = []
     kws = ["a", "b", "c", "z"]
@@ -88,6 +125,10 @@ def search(thorough=False, seed=0):
         for fl in res:
             if fl["code"].name in ("incompatible_call", "incompatible_argument"):
                 bad.setdefault(fl["lineno"], []).append(fl["description"].split("\n")[0])
+        from replay.util import count, sample
+        count(evaluations=len(plan), distinct=len(plan))
+        if off == 0 and plan:
+            sample({"signature": plan[0][1], "call": plan[0][2], "pyanalyze_reports": bad.get(base + 1, []), "note": "compared with calling the real function"})
         for i, (si, sig, sh) in enumerate(plan):
             ln = base + 1 + i
             try:
@@ -106,13 +147,13 @@ def search_star(seed=0, skip_known=True):
     element from every star-argument binds (expansions up to length 4)"""
     from replay.checkcode import check_code
     sigs = signatures(3)
-    shapes = ["*xs", "1, *xs", "*xs, a=1", "**kw", "1, **kw", "*xs, **kw", "1, 2, *xs", "*ts", "1, *ts, **kw", "a=1, **kw", "*xs, b=1, **kw"]
+    shapes = ["*xs", "1, *xs", "*xs, a=1", "**kw", "1, **kw", "*xs, **kw", "1, 2, *xs", "*ts", "1, *ts, **kw", "a=1, **kw", "*xs, b=1, **kw", "**kd", "1, **kd"]
     lines, plan, env = [], [], {}
     for si, sig in enumerate(sigs):
         src = f"def f{si}({sig}):\n    pass\n"
         exec(src, env)
         lines.append(src)
-    lines.append("from typing import Dict, List, Tuple\ndef use(xs: List[int], ts: Tuple[int, ...], kw: Dict[str, int]) -> None:\n")
+    lines.append("from typing import Dict, List, Tuple\nclass Key(str):\n    pass\ndef use(xs: List[int], ts: Tuple[int, ...], kw: Dict[str, int], kd: Dict[Key, int]) -> None:\n")
     base = sum(l.count("\n") for l in lines)
     for si, sig in enumerate(sigs):
         for sh in shapes:
@@ -121,6 +162,8 @@ def search_star(seed=0, skip_known=True):
     res = check_code("".join(lines))
     bad = {fl["lineno"]: fl["description"] for fl in res if fl["code"].name in ("incompatible_call", "incompatible_argument")}
     kwpool = [{}, {"a": 1}, {"b": 1}, {"c": 1}, {"a": 1, "b": 1}, {"b": 1, "c": 1}, {"a": 1, "b": 1, "c": 1}, {"zz": 1}, {"a": 1, "zz": 1}]
+    from replay.util import count
+    count(evaluations=len(plan), distinct=len(plan))
     for i, (si, sig, sh) in enumerate(plan):
         ln = base + 1 + i
         f = env[f"f{si}"]
@@ -128,11 +171,11 @@ def search_star(seed=0, skip_known=True):
         for n in range(0, 5):
             for kw in kwpool:
                 try:
-                    eval(f"f({sh})", {"f": f, "xs": [1] * n, "ts": (1,) * n, "kw": kw})
+                    eval(f"f({sh})", {"f": f, "xs": [1] * n, "ts": (1,) * n, "kw": kw, "kd": kw})
                 except TypeError:
                     continue
                 some = True
-                if (n > 0 or ("xs" not in sh and "ts" not in sh)) and (kw or "kw" not in sh):
+                if (n > 0 or ("xs" not in sh and "ts" not in sh)) and (kw or ("kw" not in sh and "kd" not in sh)):
                     some_nonempty = True
         if ln not in bad and not some:
             return f"def f({sig}) called as f({sh}) with star-arguments of unknown length: accepted, but no expansion (lengths 0-4) binds"
@@ -165,6 +208,8 @@ def search_validate():
                         ok = False
                     if d2 and not d and k in (K.POSITIONAL_ONLY, K.POSITIONAL_OR_KEYWORD) and k2 in (K.POSITIONAL_ONLY, K.POSITIONAL_OR_KEYWORD):
                         ok = False
+            from replay.util import count
+            count(evaluations=1, distinct=1)
             params = {f"p{i}": SigParameter(f"p{i}", k, default=KnownValue(0) if d else None) for i, (k, d) in enumerate(combo)}
             try:
                 Signature(params, TypedValue(int))
@@ -183,7 +228,7 @@ def r_validate(rec):
 
 def r_c05(rec):
     thorough = bool(rec and rec.get("tier") == "thorough")
-    msg = search(thorough) or search_star()
+    msg = search(thorough) or search_star() or search_dunder()
     return (True, msg) if msg else (False, "argument binding agrees with CPython on the generated signatures and call shapes")
 
 
@@ -193,4 +238,4 @@ if __name__ == "__main__":
     import sys
     print(len(signatures(4)), len(call_shapes()))
     print(search(len(sys.argv) > 1))
-    print(search_star()); print(search_validate())
+    print(search_star()); print(search_validate()); print(search_dunder())
